@@ -272,9 +272,8 @@ impl<B: Buf> quic::SendStream<B> for SimSend<B> {
         if let Some(code) = g.stream(self.id).pipe_w(self.side).unwrap().stop {
             // like the Quinn adapter (since 1462f61): a write that failed is forgotten, so that a later call on the
             // stream meets the peer's STOP_SENDING again instead of "a write is still in flight"
-            if self.writing.take().is_some() {
-                g.stream(self.id).pipe_w(self.side).unwrap().pending_write = 0;
-            }
+            // (`pending_write` keeps the number of bytes that never went out: the stream's tail is cut short)
+            self.writing = None;
             return Poll::Ready(Err(StreamErrorIncoming::StreamTerminated { error_code: code }));
         }
         let Some(data) = self.writing.as_mut() else {
